@@ -84,6 +84,12 @@ HTML_VOID = ["br", "img", "input", "hr", "wbr"]
 SAFE_TEXT = ["x", "hello world", " ", "1 > 2", "a]b", "]]", "--", "\n", "é", "a=b", "'q'", "/", "\r\n", "\t"]
 
 
+# When set, the shapes of the known findings (self-closing root, root directly in foreign content, an HTML
+# `title` inside an integration point, CDATA directly in an integration point) are not generated, so that a
+# document cannot hide a *different* divergence behind a known one.
+_CLEAN = False
+
+
 def fattrs(rng):
     s = ""
     for _ in range(rng.choice([0, 0, 0, 1, 1, 2])):
@@ -113,13 +119,18 @@ def html_inside(rng, depth, inline_only=False):
             n = rng.choice([x for x in HTML_INLINE if x != "a"] if inline_only else HTML_INLINE + HTML_BLOCK)
             s += "<" + lex.caseify(rng, n) + fattrs(rng) + ">" + html_inside(rng, depth + 1, inline_only) + "</" + lex.caseify(rng, n) + ">"
         elif r < 0.55:
-            s += "<" + rng.choice(HTML_VOID) + fattrs(rng) + rng.choice([">", "/>", " />"])
+            s += "<" + rng.choice([x for x in HTML_VOID if not (inline_only and x == "hr")]) + fattrs(rng) + rng.choice([">", "/>", " />"])
         elif r < 0.75:
-            n = rng.choice(["textarea", "title", "script", "style", "xmp", "iframe", "noembed", "noscript", "noframes"])
+            n = rng.choice(["textarea", "script", "style", "iframe", "noembed", "noscript", "noframes"] + ([] if _CLEAN else ["title"])
+                           + ([] if inline_only else ["xmp"]))  # `<hr>` and `<xmp>` also "close a p element"
             inner = rng.choice(["x", "<b>x</b>", "</b>", "<svg>", "</svg>", "<![CDATA[", "<!--", "<!-- </x> -->", "]]>", "", "</" + n[:-1] + ">"])
             s += "<" + lex.caseify(rng, n) + fattrs(rng) + ">" + inner + "</" + lex.caseify(rng, n) + ">"
-        elif r < 0.85:
+        elif r < 0.83:
             s += rng.choice(["<!--c-->", "<!-- <svg> -->", "<!---->", "<!--]]>-->"])
+        elif r < 0.88 and not _CLEAN:
+            # a CDATA section where HTML is expected: directly inside the integration-point element it IS a
+            # CDATA section (the adjusted current node is a foreign element), inside an HTML element a bogus comment
+            s += cdata(rng)
         elif depth < 3:
             s += island(rng, depth + 1)
     return s
@@ -158,7 +169,7 @@ def foreign_children(rng, root, depth):
                     enc = rng.choice(["text/html", "application/xhtml+xml", "TEXT/HTML", "Application/XHTML+XML"])
                     q = rng.choice(['"', "'", ""])
                     s += "<annotation-xml" + rng.choice(["", " id=a"]) + " encoding=" + q + enc + q + ">" + html_inside(rng, depth + 1, True) + "</annotation-xml>"
-        elif depth < 3 and rng.random() < 0.5:
+        elif depth < 3 and rng.random() < 0.5 and not _CLEAN:
             # a foreign root directly inside foreign content (F11 family)
             s += island(rng, depth + 1)
     return s
@@ -167,12 +178,14 @@ def foreign_children(rng, root, depth):
 def island(rng, depth=0):
     root = rng.choice(["svg", "math"])
     name = lex.caseify(rng, root)
-    if rng.random() < 0.12:
+    if rng.random() < 0.12 and not _CLEAN:
         return "<" + name + fattrs(rng) + rng.choice(["/>", " />"])
     return "<" + name + fattrs(rng) + ">" + foreign_children(rng, root, depth) + "</" + name + ">"
 
 
-def foreign_document(rng):
+def foreign_document(rng, no_known=False):
+    global _CLEAN
+    _CLEAN = no_known
     pre = rng.choice(["", "", "<!DOCTYPE html>", "<p>", "<div>a", "<body>", "x"])
     s = pre
     for _ in range(rng.choice([1, 1, 1, 2, 3])):
@@ -189,6 +202,8 @@ KNOWN = [
     "<svg><desc><title>a</title><textarea><b></textarea></desc></svg>", "<math><mi><mi>a</mi><textarea><b></textarea></mi></math>",
     "<svg><foreignObject><desc>a</desc><xmp><b></xmp></foreignObject></svg>",
     "<textarea a=><b>x</b></textarea>", "<script a=><b>x</b></script><i>", "<title a= ><b></title>",
+    "<svg><desc><![CDATA[x<b>]]></desc></svg>", "<math><mi><![CDATA[<textarea>]]><b></b></mi></math>",
+    "<frameset><iframe class=\"", "<select><title a",
 ]
 
 
@@ -212,7 +227,7 @@ def gen(rng, n, tier, pid):
         if r < 0.55:
             doc = soup_document(rng)
         elif r < 0.985:
-            doc = foreign_document(rng)
+            doc = foreign_document(rng, no_known=rng.random() < 0.4)
         else:
             doc = rng.choice(KNOWN)
         if doc.startswith("\ufeff"):
